@@ -172,13 +172,15 @@ func runCase(c *lib.Ctx, ev *evalerT, ci caseIn) (caseRec, error) {
 		texts = append(texts, vals.ReprPlain(real), vals.Repr(real, 0))
 	}
 	// one more run: the texts as the builtins `repr` and `pprint` print them (byte output)
-	bt, err := ev.builtinTexts(reals[0])
-	if err != nil {
-		return rec, err
+	if ci.ID%4 == 1 || ci.Src == "probe" {
+		bt, err := ev.builtinTexts(reals[0])
+		if err != nil {
+			return rec, err
+		}
+		hs = append(hs, "builtin:"+hs[0])
+		reals = append(reals, reals[0])
+		texts = append(texts, bt[0], bt[1])
 	}
-	hs = append(hs, "builtin:"+hs[0])
-	reals = append(reals, reals[0])
-	texts = append(texts, bt[0], bt[1])
 	backs := ev.evalTexts(texts)
 	c.AddEvals(2 * len(texts))
 	backIdx := map[string]int{}
@@ -241,6 +243,12 @@ func runAll(c *lib.Ctx, cases []caseIn) ([]caseRec, error) {
 func judge(c *lib.Ctx, name string, cases []caseIn, recs []caseRec) error {
 	if len(recs) == 0 {
 		return nil
+	}
+	if os.Getenv("C04_SELFTEST") == "corrupt" && len(recs) > 40 {
+		// vacuity guard (development only): falsify one recorded read-back value and one text
+		recs[20].Backs[0] = atom("str", "s:kw")
+		recs[30].Runs = append(recs[30].Runs, recs[30].Runs[0])
+		recs[30].Runs[len(recs[30].Runs)-1].Plain += "20"
 	}
 	if p := os.Getenv("C04_DUMP"); p != "" {
 		os.WriteFile(p, lib.NDJSON(recs), 0o644)
@@ -442,7 +450,7 @@ func run(c *lib.Ctx) error {
 	c.Set("families", perFam)
 
 	// ---- V: seeded random values, depth <= 5, width <= 8
-	nRand := c.Pick(1500, 40000)
+	nRand := c.Pick(1500, 20000)
 	g := &gen{rnd: rand.New(rand.NewSource(c.Seed*7919 + 17))}
 	maxSize, maxDepth := 0, 0
 	for i := 0; i < nRand; i++ {
